@@ -5,6 +5,7 @@ import Gnet.Driver.Arith
 import Gnet.Driver.Registry
 import Gnet.Driver.LB
 import Gnet.Driver.Pool
+import Gnet.Driver.Msq
 
 def main (args : List String) : IO UInt32 := do
   match args with
@@ -15,4 +16,5 @@ def main (args : List String) : IO UInt32 := do
   | ["registry"] => Gnet.Driver.RegD.main; return 0
   | ["lb"] => Gnet.Driver.LBD.main; return 0
   | ["pool"] => Gnet.Driver.PoolD.main; return 0
+  | ["msq"] => Gnet.Driver.MsqD.main; return 0
   | _ => IO.eprintln "usage: gnetmodel <component>"; return 2
